@@ -612,6 +612,8 @@ fn cont_props(prop: &str, tier: &str, seed: u64, threads: usize, out: &str) {
                 let mut l = gen_cont::serde_history_case(all[i % 4], &format!("h{i}"), &g, &mut rng);
                 // and a round trip over keys whose Display text and hashes collide (judged by the statement alone)
                 l.push(format!("g.rtlossy 0 {}", i * 7 + 1));
+                // ... and over node values that are changed in place between two serialisations
+                l.push(format!("g.rtcell 0 {}", i + 1));
                 l
             });
             extra.insert("histories".into(), format!("{nh} graphs serialised after members were removed and inserted again"));
@@ -717,7 +719,10 @@ fn cont_props(prop: &str, tier: &str, seed: u64, threads: usize, out: &str) {
             let nstr = if quick { 200 } else { 4000 };
             spread(&mut ctxs, nstr, |i| {
                 let mut rng = Rng::new(seed.wrapping_mul(67).wrapping_add(i as u64));
-                gen_cont::destr_case(&mut rng, all[i % 4], &format!("str{i}"))
+                let mut l = gen_cont::destr_case(&mut rng, all[i % 4], &format!("str{i}"));
+                // documents of a container whose node values are themselves graphs of the same flavour
+                l.push(format!("g.denest 0 {}", i + 1));
+                l
             });
             extra.insert("text_keys".into(), format!("{} documents of Graph<String, i64, u32> (empty, long and non-ASCII keys; half with an undeclared key), JSON and CBOR", nstr * 6));
             extra.insert("raw_bytes".into(), format!("json documents (exact, byte-level model): {njson}; cbor documents (robustness): {ncbor}; single-edit classes: white space/number literal/punctuation/truncation/trailing for JSON, every item header x (boundary arguments, widths, major types, indefinite, reserved, tags) for CBOR, plus random byte edits"));
@@ -812,6 +817,16 @@ fn own_props(tier: &str, seed: u64, threads: usize, out: &str) {
     });
     let mut extra = BTreeMap::new();
     extra.insert("random.histories".into(), format!("{nh} x ~{nc} calls"));
+    // structure at scale: caterpillars with targeted searches that stop early
+    exec::new_section();
+    let ncat = if quick { 32 } else { 128 };
+    spread_with(&mut ctxs, ncat, |i, ctx| {
+        let mut rng = Rng::new(seed.wrapping_mul(113).wrapping_add(i as u64));
+        let lines = exec_own::gen_caterpillar_case(&mut rng, all[i % 4], &format!("cat{i}"), 44 + 4 * (i % 3));
+        exec_own::run_program(&lines, ctx);
+        ctx.count("cases");
+    });
+    extra.insert("caterpillars".into(), format!("{ncat} caterpillars of 132-156 nodes with targeted searches that stop early"));
     // traversals whose closure drops the last owner of a node that the traversal has discovered or is about to
     exec::new_section();
     let nwalk = if quick { 1600 } else { 20000 };
